@@ -407,3 +407,312 @@ Proof.
   rewrite csr_to_dense_rows by (apply Forall_pick; assumption).
   rewrite ED. f_equal. apply pick_dense_rows. exact HF.
 Qed.
+
+(* ================================================================ the dense path *)
+Lemma sorted_lt_strictly l : Sorted lt l -> strictly_increasing l = true.
+Proof.
+  induction 1 as [|x t Ht IH Hhd]; [reflexivity|]. destruct t as [|y t']; [reflexivity|].
+  change (strictly_increasing (x :: y :: t')) with ((x <? y) && strictly_increasing (y :: t')).
+  inversion Hhd; subst. rewrite IH. replace (x <? y) with true by (symmetry; apply Nat.ltb_lt; assumption).
+  reflexivity.
+Qed.
+
+Definition scatter {A} (raw : list A) (sd : list nat) (out : list A) : list A :=
+  fold_left (fun out p => upd out (snd p) (fst p)) (combine raw sd) out.
+
+Lemma scatter_length {A} (raw : list A) sd : forall out, length (scatter raw sd out) = length out.
+Proof.
+  unfold scatter. revert sd. induction raw as [|r rt IH]; intros [|s t] out; cbn; try reflexivity.
+  rewrite IH. apply upd_length.
+Qed.
+
+Lemma scatter_untouched {A} (raw : list A) sd i d : forall out,
+  ~ In i sd -> nth i (scatter raw sd out) d = nth i out d.
+Proof.
+  unfold scatter. revert sd. induction raw as [|r rt IH]; intros [|s t] out Hn; cbn; try reflexivity.
+  rewrite IH by (intros H; apply Hn; right; exact H).
+  apply nth_upd_neq. intros ->. apply Hn. left. reflexivity.
+Qed.
+
+Lemma scatter_hit {A} (raw : list A) sd d : forall out k,
+  NoDup sd -> length raw = length sd -> Forall (fun s => s < length out) sd -> k < length sd ->
+  nth (nth k sd 0) (scatter raw sd out) d = nth k raw d.
+Proof.
+  revert sd. induction raw as [|r rt IH]; intros [|s t] out k ND HL HF Hk; cbn in HL, Hk; try lia.
+  inversion ND as [|? ? Hn ND']; subst. inversion HF as [|? ? Hs HF']; subst.
+  change (scatter (r :: rt) (s :: t) out) with (scatter rt t (upd out s r)).
+  destruct k as [|k]; cbn [nth].
+  - rewrite scatter_untouched by exact Hn. apply nth_upd_eq. exact Hs.
+  - apply IH; [exact ND' | lia | | lia]. rewrite upd_length. exact HF'.
+Qed.
+
+Theorem dense_get_batch_exact (d : dense) nr rows :
+  length d = nr -> rows <> [] -> NoDup rows -> Forall (fun r => r < nr) rows ->
+  dense_get_batch rows nr d = Ok (map (fun r => nth r d []) rows).
+Proof.
+  intros HL Hne ND HF. unfold dense_get_batch.
+  destruct (argsort_spec rows) as (Psd & Psrt & Ssrt). cbn zeta in Psd, Psrt, Ssrt.
+  pose proof (argsort_length rows) as Lsd.
+  set (sd := argsort rows) in *. set (srt := map (fun i => nth i rows 0) sd) in *.
+  assert (NDs : NoDup srt) by (eapply Permutation_NoDup; [apply Permutation_sym; exact Psrt | exact ND]).
+  assert (Slt : Sorted lt srt) by (apply sorted_le_nodup_lt; assumption).
+  assert (HFs : Forall (fun r => r < nr) srt)
+    by (eapply Permutation_Forall; [apply Permutation_sym; exact Psrt | exact HF]).
+  assert (Hnes : srt <> []) by (eapply perm_nonempty; eassumption).
+  assert (Lsrt : length srt = length rows) by (unfold srt; rewrite map_length; exact Lsd).
+  destruct srt as [|s0 st] eqn:Esrt; [congruence|]. rewrite <- Esrt in *.
+  rewrite (sorted_lt_strictly _ Slt).
+  assert (Efa : forallb (fun r => r <? nr) srt = true).
+  { apply forallb_forall. intros r Hr. apply Nat.ltb_lt. rewrite Forall_forall in HFs. exact (HFs r Hr). }
+  rewrite Efa. cbn [andb]. f_equal.
+  set (raw := map (fun r => nth r d []) srt).
+  fold (scatter raw sd (repeat [] (length raw))).
+  assert (Lraw : length raw = length rows) by (unfold raw; rewrite map_length; exact Lsrt).
+  assert (NDsd : NoDup sd) by (eapply Permutation_NoDup; [apply Permutation_sym; exact Psd | apply seq_NoDup]).
+  apply (nth_ext _ _ [] []).
+  - rewrite scatter_length, repeat_length, map_length. exact Lraw.
+  - intros i Hi. rewrite scatter_length, repeat_length, Lraw in Hi.
+    assert (Hin : In i sd) by (eapply Permutation_in; [apply Permutation_sym; exact Psd | apply in_seq; lia]).
+    destruct (In_nth _ _ 0 Hin) as (k & Hk & Ek). rewrite <- Ek.
+    rewrite scatter_hit; [| exact NDsd | lia | | exact Hk].
+    2:{ rewrite repeat_length, Lraw. eapply Permutation_Forall; [apply Permutation_sym; exact Psd|].
+        apply Forall_forall. intros x Hx. apply in_seq in Hx. lia. }
+    unfold raw. rewrite (nth_map_lt _ srt k 0) by lia.
+    rewrite (nth_map_lt _ rows (nth k sd 0) 0) by (rewrite Ek; lia).
+    f_equal. unfold srt. exact (nth_map_lt (fun i0 => nth i0 rows 0) sd k 0 0 Hk).
+Qed.
+
+(* ================================================================ rejected row lists *)
+(* dense path: anything but a non-empty duplicate-free in-range list is refused *)
+Theorem dense_get_batch_rejects (d : dense) nr rows :
+  rows = [] \/ ~ NoDup rows \/ Exists (fun r => nr <= r) rows ->
+  dense_get_batch rows nr d = Err EReject.
+Proof.
+  intros Hbad. unfold dense_get_batch.
+  destruct (argsort_spec rows) as (Psd & Psrt & Ssrt). cbn zeta in Psd, Psrt, Ssrt.
+  set (sd := argsort rows) in *. set (srt := map (fun i => nth i rows 0) sd) in *.
+  destruct srt as [|s0 st] eqn:Esrt; [reflexivity|]. rewrite <- Esrt in *.
+  destruct (strictly_increasing srt && forallb (fun r => r <? nr) srt) eqn:E; [|reflexivity].
+  exfalso. apply andb_true_iff in E. destruct E as [E1 E2].
+  destruct Hbad as [-> | [Hd | He]].
+  - apply Permutation_sym, Permutation_nil in Psrt. congruence.
+  - apply Hd. eapply Permutation_NoDup; [exact Psrt|].
+    clear - E1. induction srt as [|x t IH]; [constructor|].
+    assert (G : Forall (fun y => x < y) t /\ strictly_increasing t = true).
+    { clear IH. revert x E1. induction t as [|y t' IH']; intros x E1; [split; [constructor | reflexivity]|].
+      change (strictly_increasing (x :: y :: t')) with ((x <? y) && strictly_increasing (y :: t')) in E1.
+      apply andb_true_iff in E1. destruct E1 as [H1 H2]. apply Nat.ltb_lt in H1.
+      destruct (IH' y H2) as [I1 _]. split; [|exact H2]. constructor; [exact H1|].
+      eapply Forall_impl; [|exact I1]. cbn. intros; lia. }
+    destruct G as [G1 G2]. constructor; [|apply IH; exact G2].
+    intros Hin. rewrite Forall_forall in G1. specialize (G1 x Hin). lia.
+  - apply Exists_exists in He. destruct He as (r & Hr & Hge).
+    assert (Hin : In r srt) by (eapply Permutation_in; [apply Permutation_sym; exact Psrt | exact Hr]).
+    rewrite forallb_forall in E2. specialize (E2 r Hin). apply Nat.ltb_lt in E2. lia.
+Qed.
+
+(* ---- np.unique ---- *)
+Lemma dedup_hd y t : exists t', dedup_sorted (y :: t) = y :: t'.
+Proof.
+  revert y. induction t as [|z t IH]; intros y; [exists []; reflexivity|].
+  change (dedup_sorted (y :: z :: t)) with (if y =? z then dedup_sorted (z :: t) else y :: dedup_sorted (z :: t)).
+  destruct (y =? z) eqn:E; [|eexists; reflexivity].
+  apply Nat.eqb_eq in E. subst. apply IH.
+Qed.
+
+Lemma dedup_spec l : Sorted le l ->
+  Sorted lt (dedup_sorted l) /\ (forall x, In x (dedup_sorted l) <-> In x l).
+Proof.
+  induction l as [|x t IH]; intros H; [split; [constructor | tauto]|].
+  inversion H as [|? ? Ht Hhd]; subst. destruct (IH Ht) as [I1 I2].
+  destruct t as [|y t']; [split; [repeat constructor | tauto]|].
+  change (dedup_sorted (x :: y :: t')) with (if x =? y then dedup_sorted (y :: t') else x :: dedup_sorted (y :: t')).
+  inversion Hhd; subst.
+  destruct (x =? y) eqn:E.
+  - apply Nat.eqb_eq in E. subst. split; [exact I1|]. intros z. rewrite I2. cbn. tauto.
+  - apply Nat.eqb_neq in E. split.
+    + constructor; [exact I1|]. destruct (dedup_hd y t') as (t'' & ->). constructor. lia.
+    + intros z. split; intros [Hz|Hz]; [left; exact Hz | right; apply I2; exact Hz | left; exact Hz | right; apply I2; exact Hz].
+Qed.
+
+Lemma unique_spec l :
+  Sorted lt (unique l) /\ (forall x, In x (unique l) <-> In x l).
+Proof.
+  unfold unique. pose proof (sort_by_sorted (fun x : nat => x) l) as HS. rewrite map_id in HS.
+  destruct (dedup_spec _ HS) as [D1 D2]. split; [exact D1|].
+  intros x. rewrite D2. split; apply Permutation_in; [|apply Permutation_sym]; apply sort_by_perm.
+Qed.
+
+Lemma unique_length_le l : length (unique l) <= length l.
+Proof.
+  destruct (unique_spec l) as [U1 U2]. apply NoDup_incl_length; [apply sorted_lt_nodup; exact U1|].
+  intros x Hx. apply U2. exact Hx.
+Qed.
+
+Lemma unique_length_dup l : ~ NoDup l -> length (unique l) < length l.
+Proof.
+  intros Hd. destruct (unique_spec l) as [U1 U2].
+  destruct (le_lt_dec (length l) (length (unique l))) as [H|H]; [|exact H].
+  exfalso. apply Hd. apply (@NoDup_incl_NoDup _ (unique l)); [apply sorted_lt_nodup; exact U1 | exact H|].
+  intros x Hx. apply U2. exact Hx.
+Qed.
+
+(* ---- inversion of the monadic plumbing ---- *)
+Lemma bind_ok_inv {A B} (x : res A) (f : A -> res B) b :
+  bind x f = Ok b -> exists a, x = Ok a /\ f a = Ok b.
+Proof. destruct x as [a|e]; cbn; [eauto | discriminate]. Qed.
+
+Lemma res_map_ok_inv {A B} (f : A -> res B) l : forall ys,
+  res_map f l = Ok ys -> Forall2 (fun x y => f x = Ok y) l ys.
+Proof.
+  induction l as [|x t IH]; intros ys H; cbn in H.
+  - inversion H; subst. constructor.
+  - apply bind_ok_inv in H. destruct H as (y & Ey & H). apply bind_ok_inv in H.
+    destruct H as (ys' & Eys & H). inversion H; subst. constructor; [exact Ey | apply IH; exact Eys].
+Qed.
+
+(* ---- counting the rows actually loaded ---- *)
+Definition n_loaded (ps : list comp) : nat := sum_list (map (fun p => length (ptr p) - 1) ps).
+Definition n_asked (rgs : list (nat * nat)) : nat := sum_list (map (fun rg => snd rg - fst rg) rgs).
+
+Lemma expand_length rgs : length (expand rgs) = n_asked rgs.
+Proof.
+  unfold expand, n_asked. induction rgs as [|rg t IH]; [reflexivity|].
+  cbn [map concat]. rewrite app_length, seq_length, IH. reflexivity.
+Qed.
+
+Lemma load_sparse_ptr_length a b m p :
+  load_sparse a b m = Ok p -> length (ptr p) = length (slice (ptr m) a (S b)) /\ 1 <= length (ptr p).
+Proof.
+  unfold load_sparse. destruct (slice (ptr m) a (S b)) as [|p0 t] eqn:E; [discriminate|].
+  intros H. injection H as <-. cbn [ptr length]. rewrite map_length. split; [reflexivity | lia].
+Qed.
+
+Lemma loaded_le m rgs ps :
+  Forall2 (fun rg p => load_sparse (fst rg) (snd rg) m = Ok p) rgs ps -> n_loaded ps <= n_asked rgs.
+Proof.
+  unfold n_loaded, n_asked, sum_list. induction 1 as [|rg p rgs ps Hp _ IH]; [cbn; lia|].
+  cbn [map fold_right]. destruct (load_sparse_ptr_length _ _ _ _ Hp) as [E1 E2].
+  assert (length (ptr p) <= S (snd rg) - fst rg).
+  { rewrite E1. unfold slice. rewrite firstn_length. lia. }
+  lia.
+Qed.
+
+Lemma loaded_lt m nr rgs ps :
+  length (ptr m) = S nr ->
+  Forall2 (fun rg p => load_sparse (fst rg) (snd rg) m = Ok p) rgs ps ->
+  Exists (fun rg => nr < snd rg) rgs -> n_loaded ps < n_asked rgs.
+Proof.
+  intros HP H. unfold n_loaded, n_asked, sum_list.
+  induction H as [|rg p rgs ps Hp Hrest IH]; intros He; [inversion He|].
+  cbn [map fold_right]. destruct (load_sparse_ptr_length _ _ _ _ Hp) as [E1 E2].
+  assert (B : length (ptr p) <= S (snd rg) - fst rg).
+  { rewrite E1. unfold slice. rewrite firstn_length. lia. }
+  pose proof (loaded_le m rgs ps Hrest) as Hle. unfold n_loaded, n_asked, sum_list in Hle.
+  inversion He as [? ? Hnow | ? ? Hlater]; subst.
+  - assert (B2 : length (ptr p) <= S nr - fst rg).
+    { rewrite E1. unfold slice. rewrite firstn_length, skipn_length, HP. lia. }
+    lia.
+  - specialize (IH Hlater). lia.
+Qed.
+
+Lemma removelast_len {A} (l : list A) : length (removelast l) = length l - 1.
+Proof.
+  induction l as [|x t IH]; [reflexivity|]. destruct t as [|y t']; [reflexivity|].
+  change (removelast (x :: y :: t')) with (x :: removelast (y :: t')). cbn [length] in *. rewrite IH. lia.
+Qed.
+
+Lemma merge_from_ptr_length ps : forall i0, length (fst (merge_from i0 ps)) = n_loaded ps.
+Proof.
+  unfold n_loaded, sum_list. induction ps as [|p t IH]; intros i0; [reflexivity|].
+  cbn [merge_from fst map fold_right]. rewrite app_length, map_length, removelast_len, IH. reflexivity.
+Qed.
+
+Lemma merge_csr_ptr_length ps mg : merge_csr ps = Ok mg -> length (ptr mg) = S (n_loaded ps).
+Proof.
+  unfold merge_csr. destruct (forallb _ ps); [|discriminate]. intros H. inversion H; subst.
+  cbn [ptr]. rewrite app_length, merge_from_ptr_length. cbn. lia.
+Qed.
+
+(* the un-sorting loop reads the pointer after every position it visits *)
+Lemma unsort_ok_bound sd mg total : forall iis dc r,
+  unsort_from iis sd mg total dc = Ok r ->
+  forall ii, In ii iis -> exists pos, index_of ii sd = Some pos /\ S pos < length (ptr mg).
+Proof.
+  induction iis as [|i t IH]; intros dc r H ii Hin; [destruct Hin|].
+  cbn [unsort_from] in H. destruct (index_of i sd) as [pos|] eqn:Ei; [|discriminate].
+  destruct (nth_error (ptr mg) pos) as [i0|]; [|discriminate].
+  destruct (nth_error (ptr mg) (S pos)) as [i1|] eqn:E1; [|discriminate].
+  destruct (total <? dc + (i1 - i0)); [discriminate|].
+  destruct (length (ptr mg) <=? i); [discriminate|].
+  apply bind_ok_inv in H. destruct H as (r' & Er & _).
+  destruct Hin as [<- | Hin].
+  - exists pos. split; [exact Ei|]. apply nth_error_Some. congruence.
+  - eapply IH; eassumption.
+Qed.
+
+Lemma expand_in r rgs : In r (expand rgs) -> exists rg, In rg rgs /\ fst rg <= r < snd rg.
+Proof.
+  unfold expand. intros H. apply in_concat in H. destruct H as (l & Hl & Hr).
+  apply in_map_iff in Hl. destruct Hl as (rg & <- & Hrg). apply in_seq in Hr. exists rg. split; [exact Hrg | lia].
+Qed.
+
+(* sparse path: an empty list, a duplicate or an out-of-range row makes
+   _load_disjoint_csr fail - it never returns other rows instead *)
+Theorem load_disjoint_rejects m nr rows :
+  length (ptr m) = S nr ->
+  rows = [] \/ ~ NoDup rows \/ Exists (fun r => nr <= r) rows ->
+  exists e, load_disjoint_csr rows m = Err e.
+Proof.
+  intros HP Hbad. destruct (load_disjoint_csr rows m) as [b|e] eqn:E; [|eauto]. exfalso.
+  unfold load_disjoint_csr in E.
+  destruct (argsort_spec rows) as (Psd & Psrt & Ssrt). cbn zeta in Psd, Psrt, Ssrt.
+  pose proof (argsort_length rows) as Lsd.
+  set (sd := argsort rows) in *. set (srt := map (fun i => nth i rows 0) sd) in *.
+  assert (Lsrt : length srt = length rows) by (unfold srt; rewrite map_length; exact Lsd).
+  apply bind_ok_inv in E. destruct E as (rgs & Em & E).
+  apply bind_ok_inv in E. destruct E as (pieces & Ep & E).
+  apply bind_ok_inv in E. destruct E as (mg & Emg & E).
+  apply bind_ok_inv in E. destruct E as (r & Eu & _).
+  destruct (unique_spec srt) as [U1 U2].
+  unfold merge_index_list in Em. destruct (unique srt) as [|x t] eqn:EU; [discriminate|].
+  inversion Em; subst rgs. clear Em.
+  assert (Ee : expand (merge_ranges_from x x t) = x :: t).
+  { rewrite merge_ranges_expand by (lia || assumption). replace (S x - x) with 1 by lia. reflexivity. }
+  set (rgs := merge_ranges_from x x t) in *.
+  assert (Ea : n_asked rgs = length (unique srt)) by (rewrite <- expand_length, Ee, EU; reflexivity).
+  apply res_map_ok_inv in Ep.
+  pose proof (merge_csr_ptr_length _ _ Emg) as Lmg.
+  (* the loop needs more pointers than rows requested *)
+  assert (Hne : rows <> []).
+  { intros ->. apply Permutation_sym, Permutation_nil in Psrt. rewrite Psrt in EU. cbn in EU. discriminate EU. }
+  assert (Hlen : 0 < length rows) by (destruct rows; [congruence | cbn; lia]).
+  assert (NDsd : NoDup sd) by (eapply Permutation_NoDup; [apply Permutation_sym; exact Psd | apply seq_NoDup]).
+  set (k := length rows - 1).
+  assert (Hk : k < length sd) by (unfold k; lia).
+  assert (Hin : In (nth k sd 0) (seq 0 (length rows))).
+  { eapply Permutation_in; [exact Psd | apply nth_In; exact Hk]. }
+  destruct (unsort_ok_bound _ _ _ _ _ _ Eu _ Hin) as (pos & P1 & P2).
+  rewrite (index_of_nth sd k NDsd Hk) in P1. inversion P1; subst pos.
+  assert (Hneed : length rows <= n_loaded pieces) by (unfold k in P2; lia).
+  pose proof (loaded_le m rgs pieces Ep) as Hle.
+  pose proof (unique_length_le srt) as HU.
+  destruct Hbad as [-> | [Hd | He]]; [congruence | |].
+  - assert (~ NoDup srt) by (intros Hs; apply Hd; eapply Permutation_NoDup; eassumption).
+    pose proof (unique_length_dup srt H). lia.
+  - apply Exists_exists in He. destruct He as (r0 & Hr0 & Hge).
+    assert (Hin0 : In r0 (expand rgs)).
+    { rewrite Ee. apply U2. eapply Permutation_in; [apply Permutation_sym; exact Psrt | exact Hr0]. }
+    destruct (expand_in _ _ Hin0) as (rg & Hrg & Hb).
+    assert (Hex : Exists (fun rg => nr < snd rg) rgs) by (apply Exists_exists; exists rg; split; [exact Hrg | lia]).
+    pose proof (loaded_lt m nr rgs pieces HP Ep Hex). lia.
+Qed.
+
+Theorem csr_get_batch_rejects m nr nc rows :
+  length (ptr m) = S nr ->
+  rows = [] \/ ~ NoDup rows \/ Exists (fun r => nr <= r) rows ->
+  exists e, csr_get_batch rows nc m = Err e.
+Proof.
+  intros HP Hbad. destruct (load_disjoint_rejects m nr rows HP Hbad) as (e & E).
+  exists e. unfold csr_get_batch. rewrite E. reflexivity.
+Qed.
